@@ -65,6 +65,16 @@ class World:
         self.full_key = full_key
 
     # -- plumbing ---------------------------------------------------------------------------------------------------
+    @staticmethod
+    def _handle(obj, as_bound_method):
+        """Sink k1 is registered as the callable object itself; k2 and the sources as a bound method, which is a NEW
+        object on every registration (equal, not identical, to the previous one) - what user code typically passes."""
+        return obj.__call__ if as_bound_method else obj
+
+    @staticmethod
+    def _owner(x):
+        return getattr(x, "__self__", x)
+
     def _io(self, name):
         """The object holding script / sent / polls for endpoint `name` (the double, or the UDP object's fake socket)."""
         ep = self.eps[name]
@@ -100,9 +110,9 @@ class World:
         if kind == "del":
             return hub.deleteForwardingRule(a[1], a[2])
         if kind == "sink":
-            return hub.setDataSink(a[1], None if a[2] is None else self.sinks[a[2]])
+            return hub.setDataSink(a[1], None if a[2] is None else self._handle(self.sinks[a[2]], a[2] != "k1"))
         if kind == "src":
-            return hub.setDataSource(a[1], None if a[2] is None else self.srcs[a[2]])
+            return hub.setDataSource(a[1], None if a[2] is None else self._handle(self.srcs[a[2]], True))
         if kind == "recv":
             self.script(a[1], [a[2]])
             return hub.getData(a[1])
@@ -142,6 +152,7 @@ class World:
         src_of = {id(o): n for n, o in self.srcs.items()}
 
         def nm(table, x):
+            x = self._owner(x)
             return table.get(id(x), "?" + (x if isinstance(x, str) else type(x).__name__))
         if list(hub.endpoints.keys()) != list(self.eps.keys()) or any(hub.endpoints[n] is not self.eps[n] for n in self.eps):
             raise HarnessError("the hub's endpoint table is no longer the one the harness installed")
@@ -157,6 +168,7 @@ class World:
         fn_of.update({id(o): "src:" + n for n, o in self.srcs.items()})
 
         def ref(x):
+            x = self._owner(x)
             if id(x) in name_of:
                 return "ep:" + name_of[id(x)]
             return fn_of.get(id(x), x if isinstance(x, (str, int, float, bool, type(None))) else "?" + type(x).__name__)
